@@ -70,7 +70,7 @@ pub fn eval_build(c: &BuildCase, obs: &mut Obs) -> Result<(), String> {
     });
     let multi = s.chars().any(|ch| ch.len_utf8() > 1);
     obs.class(if s.ends_with('\0') { "ends-in-nul" } else { "no-trailing-nul" });
-    if multi || s.ends_with('\0') || s.len() % 8 == 7 {
+    if multi || s.contains('\0') || s.len() % 8 == 7 {
         obs.nontrivial(fnv(format!("{}/{}", c.kind, s).as_bytes()));
         obs.sample(json!({"kind": c.kind, "text": s}));
     }
@@ -102,13 +102,17 @@ fn enumerate_build(ctx: &Ctx) -> Box<dyn Iterator<Item = BuildCase>> {
         for kind in KINDS {
             v.push(BuildCase { kind, text: s.clone() });
             v.push(BuildCase { kind, text: format!("{s}\0") });
+            if s.chars().count() <= 3 {
+                v.push(BuildCase { kind, text: format!("{s}\0{s}a") });
+                v.push(BuildCase { kind, text: format!("{s}\0\0") });
+            }
         }
     }
     Box::new(v.into_iter())
 }
 
 fn strategy_build(_: &Ctx) -> BoxedStrategy<BuildCase> {
-    (proptest::sample::select(KINDS.to_vec()), "[^\\x00]{0,300}", 0u8..6)
+    (proptest::sample::select(KINDS.to_vec()), "[^\\x00]{0,300}", 0u8..7)
         .prop_map(|(kind, mut text, nul)| {
             match nul {
                 0 => text.push('\0'),
@@ -118,6 +122,15 @@ fn strategy_build(_: &Ctx) -> BoxedStrategy<BuildCase> {
                     let at = text.char_indices().nth(text.chars().count() / 2).map(|(i, _)| i).unwrap_or(0);
                     text.insert(at, '\0');
                     text.push('\0');
+                }
+                3 => {
+                    // interior NUL but no trailing one: does not "already end in
+                    // NUL", so the terminator is still appended
+                    let at = text.char_indices().nth(text.chars().count() / 2).map(|(i, _)| i).unwrap_or(0);
+                    text.insert(at, '\0');
+                    if text.ends_with('\0') {
+                        text.push('x');
+                    }
                 }
                 _ => {}
             }
